@@ -8,4 +8,5 @@ INVARIANT TraverseRefines
 INVARIANT EventsBalanced
 INVARIANT PreorderOnce
 INVARIANT IdentityTransform
+INVARIANT OriginsConsistent
 CHECK_DEADLOCK FALSE
